@@ -132,7 +132,8 @@ struct Stage {
 }
 
 fn stages(tier: Tier) -> Vec<Stage> {
-    let all_q: Vec<(usize, usize)> = EVAL_TIMES.iter().flat_map(|t| (0..POLICIES.len()).map(move |p| (*t, p))).collect();
+    // baseline, lax (.5/.1), accept-only .9, material-only .1, forecast, modes [hypothetical, stated]
+    let all_q: Vec<(usize, usize)> = EVAL_TIMES.iter().flat_map(|t| [0usize, 2, 5, 6, 3, 4].map(|p| (*t, p))).collect();
     // baseline, forecast, hypothetical+stated: the three mode sets; thresholds do not matter to eligibility
     let mode_q: Vec<(usize, usize)> = EVAL_TIMES.iter().flat_map(|t| [0usize, 3, 4].map(|p| (*t, p))).collect();
     let mut v = Vec::new();
@@ -342,7 +343,7 @@ fn main() {
         "eligibility is per row (lifecycle, window vs evaluation time, mode vs policy) and grouping only sees rows that passed, so eligibility is enumerated on 1-2 assertions: \
          every lifecycle {active, retracted, superseded by an expired claim, superseded by a live claim} x every mode (6) x 7 validity windows (none, ended before, starts after, starts exactly at / ends exactly at an evaluation time, both boundaries, strictly inside) x stance, \
          alone (plain, functional own value, functional rival value) and next to a witness assertion placed to expose a wrongly admitted row; every interleaving of the ASSERT / RETRACT / SUPERSEDING statements, one transaction each; \
-         projected at 3 evaluation times (FOR TIME) x 5 policies (baseline .7/.3, strict .9/.5, lax .5/.1, forecast, modes [hypothetical, stated]) [pairs: the 3 mode sets]; compared with BeliefModel (status, groups, id sets, excluded list, scores, policy named) and across interleavings. \
+         projected at 3 evaluation times (FOR TIME) x 6 policies (baseline .7/.3, lax .5/.1, accept-only .9, material-only .1, forecast, modes [hypothetical, stated]) [pairs: the 3 mode sets]; compared with BeliefModel (status, groups, id sets, excluded list, scores, policy named) and across interleavings. \
          distinct non-trivial = history in which some assertion is excluded at one of the queries and some assertion counts at one of them",
     );
     run.assume("validity windows and evaluation times from a 7-point yearly grid; replacement claims of superseded assertions are fixed (one expired, one live)");
